@@ -879,6 +879,9 @@ def run(tier, seed):
     # model's for all inputs; a failure is reported when the check finishes unless a stage below finds a
     # concrete failing input
     gen_tie.gate(chk, ['override_platform_guard'], gate)
+    # glue code (DESIGN 11.7, third round): the body of the loop over the overrides in TestSettings::new (first override
+    # that sets a setting wins, for each of the eleven settings), read from the source
+    gen_tie.gate(chk, ['override_loop_body', 'display_setting'], gate, family="glue")
     checker_cmd = "make -C coq Properties/C06.vo && coqc gen/assump_C06.v (Print Assumptions)"
     binary, err = vlib.build_harness()
     if binary is None:
